@@ -79,8 +79,26 @@ def ev_eval(p, e, h):
     raise ValueError(p)
 
 
-EXC = dict(TypeError=TypeError, ValueError=ValueError, KeyError=KeyError, ZeroDivisionError=ZeroDivisionError,
-           AttributeError=AttributeError, RuntimeError=RuntimeError, StopIteration=StopIteration)
+def _exception_classes():
+    """every built-in class below Exception that can be raised with one string argument, plus user-defined
+    subclasses (of Exception, and of two classes the library's own code could plausibly catch for itself)"""
+    import builtins
+    out = {}
+    for name in sorted(dir(builtins)):
+        c = getattr(builtins, name)
+        if isinstance(c, type) and issubclass(c, Exception) and not issubclass(c, Warning):
+            try:
+                c("scripted")
+            except Exception:
+                continue
+            out[c.__name__] = c          # aliases (IOError, EnvironmentError) collapse onto OSError
+    out["UserError"] = type("UserError", (Exception,), {})
+    out["UserIndexError"] = type("UserIndexError", (IndexError,), {})
+    out["UserKeyError"] = type("UserKeyError", (KeyError,), {})
+    return out
+
+
+EXC = _exception_classes()
 
 
 def to_callable(p, exc=None):
